@@ -64,7 +64,8 @@ add_hybrid = op('add_hybrid', pe=st.integers(1, 4), mbr_id=st.one_of(NONE, st.in
                 pt=st.one_of(NONE, st.sampled_from([0, 0x17, 0x83, 0xef])), mac=st.sampled_from([False, False, True]),
                 efi=st.sampled_from([None, None, True, False]))
 rm_hybrid = op('rm_hybrid')
-bad = op('bad', w=st.integers(0, 200), i=I, to=I, len=st.sampled_from([0, 5, 2048, 70]), bit=st.booleans(), sz=SZ, rsz=st.integers(0, 3), usz=st.integers(0, 2), lead=I, salt=I)
+bad = op('bad', w=st.integers(0, 200), wx=st.one_of(NONE, NONE, NONE, NONE, st.integers(0, 100)), i=I, to=I, len=st.sampled_from([0, 5, 2048, 70]), bit=st.booleans(), sz=SZ,
+         rsz=st.sampled_from([0, 1, 2, 3, 3, 4, 5, 6]), usz=st.integers(0, 2), lead=I, salt=I)
 
 
 def finish(cfg, ops, avoid=True):
@@ -346,6 +347,25 @@ def exactfill(cfg=None, reopen_ok=False):
     tail = st.lists(st.one_of(*tail_choices), min_size=0, max_size=5)
     return program(c, st.builds(build, st.sampled_from(['iso', 'iso', 'jol', 'udf']), st.sampled_from([1, 1, 2]), st.lists(I, min_size=8, max_size=8),
                                 st.lists(I, min_size=6, max_size=6), extra, tail, st.booleans()))
+
+
+def symsplit(cfg=None, reopen_ok=False):
+    """Symbolic links whose long target component has to be split between SL entries: a run of links with
+    consecutive component lengths (so that every split position occurs), tails and heads that make a piece
+    come out as '.' or '..'."""
+    c = cfg if cfg is not None else cfg_st(rr=st.sampled_from(['1.09', '1.10', '1.12']))
+
+    def build(base, count, tail, head, mid, rsz, lead, salt, form, post):
+        ops = []
+        for i in range(count):
+            ops.append({'k': 'add_sym', 'd': 0, 'form': form, 'jol': False, 'tgt': 0, 'sz': 0, 'rsz': rsz, 'usz': 0, 'lead': lead, 'salt': salt, 'reuse': 0,
+                        'tx': [base + i, tail, head, mid]})
+        return ops + post
+    post_choices = [write, query, rm_sym, add_fp(d=st.just(0), length=SMALL_LEN)]
+    if reopen_ok:
+        post_choices += [reopen]
+    return program(c, st.builds(build, st.integers(60, 760), st.integers(8, 20), st.integers(0, 5), st.integers(0, 6), st.integers(0, 5), st.integers(0, 3), I, I,
+                                st.sampled_from([0, 0, 1]), st.lists(st.one_of(*post_choices), min_size=0, max_size=3)))
 
 
 def cegap(cfg=None, reopen_ok=False):
